@@ -150,6 +150,10 @@ func (s *sorter) sortOf(t types.Type) string {
 	if isMathInt(t) {
 		return sInt
 	}
+	if isNamed(t, "time", "Time") {
+		s.d.declSort("Time")
+		return "Time"
+	}
 	switch u := t.Underlying().(type) {
 	case *types.Basic:
 		switch {
